@@ -606,15 +606,17 @@ def oracle(script, impl):
                 want = []
                 if pend.get(i):
                     want.append((lastmask.get(i, 0),) + pend[i])
-                want.append((mask, x, y, dims[i]))
+                want.append((mask, x, y, dims[i], (W, H)))
                 pend[i] = None
                 if len(evs) != len(want):
                     return "pointer event lost or duplicated (%d delivered, %d expected): %s -> %s" % (len(evs), len(want), op, ob)
-                for (m, mx, my), (wm, wx, wy, wd) in zip(evs, want):
-                    if m != wm or not mapped_ok(mx, my, wx, wy, wd, W, H):
-                        return "pointer not mapped back into its source block (client %d,%d on %dx%d of %dx%d, mask %d): %s -> %s" % (wx, wy, wd[0], wd[1], W, H, wm, op, ob)
+                for (m, mx, my), (wm, wx, wy, wd, ws) in zip(evs, want):
+                    if m != wm or not mapped_ok(mx, my, wx, wy, wd, ws[0], ws[1]):
+                        return "pointer not mapped back into its source block (client %d,%d on %dx%d of %dx%d, mask %d): %s -> %s" % (wx, wy, wd[0], wd[1], ws[0], ws[1], wm, op, ob)
             else:
-                pend[i] = (x, y, dims[i])                   # coalesced: delivered later
+                # coalesced: delivered later, mapped with the scale AND the screen size of this moment
+                # (a framebuffer replacement in between does not re-map it)
+                pend[i] = (x, y, dims[i], (W, H))
                 for (m, mx, my) in evs:                     # (if delivered now it must still be right)
                     if not mapped_ok(mx, my, x, y, dims[i], W, H):
                         return "pointer not mapped back into its source block: %s -> %s" % (op, ob)
@@ -644,7 +646,7 @@ def check_flush(toks, pend, lastmask, W, H):
         if i not in got:
             return "coalesced pointer position of client %d lost" % i
         m, mx, my = got.pop(i)
-        if m != lastmask.get(i, 0) or not mapped_ok(mx, my, p[0], p[1], p[2], W, H):
+        if m != lastmask.get(i, 0) or not mapped_ok(mx, my, p[0], p[1], p[2], p[3][0], p[3][1]):
             return "coalesced pointer position of client %d (%d,%d on %dx%d) not mapped back" % (i, p[0], p[1], p[2][0], p[2][1])
         pend[i] = None
     if got:
